@@ -66,6 +66,7 @@ func SpecMarkedText(tVersion, tShort, tYear, tSecRule, tSignature string, lines 
 //@   results r
 //@   modifies fsWrites
 //@   checks[C15,C14] only-conf-and-example: implies(called(processFile), utils.SpecHasSuffix(resultOf(Name, 0), ".conf") || utils.SpecHasSuffix(resultOf(Name, 0), ".example"))
+//@   checks[C14,C16] the-walk-is-cut-short-by-a-failure-only: implies(err == nil && !(called(processFile) && resultOf(processFile, 0) != nil), r == nil)
 //@   checks[C14] every-conf-and-example: implies(called(Name) && (utils.SpecHasSuffix(resultOf(Name, 0), ".conf") || utils.SpecHasSuffix(resultOf(Name, 0), ".example")), called(processFile))
 
 var _ = utils.SpecHasSuffix
